@@ -8,6 +8,7 @@
 
 mod canon;
 mod pkt;
+mod pool;
 mod props;
 mod rt;
 mod scenario;
